@@ -116,9 +116,14 @@ type World struct {
 	LongPasswords bool
 	// PostGates adds a gate behind every state read and write (C14)
 	PostGates bool
+	// NodeYields turns the statement-level yield points of the node's message
+	// handler (hook H6: before and after a message is applied to the loaded
+	// round, before the round is saved) into gates
+	NodeYields bool
 	// NameOf, when set before the cluster is built, chooses the participants'
 	// user names (a participant picks its own name: look-alike names are input)
-	NameOf func(i int) string
+	NameOf   func(i int) string
+	DkgKeyOf func(i int) []byte // key-generation key listed for member i in the next opening proposal (nil: its machine's)
 
 	viol        *sim.Violation
 	Prop        string         // property of the scenario being run
